@@ -27,6 +27,7 @@ class Oracle:
         return c
 
 
+_ROUND = [0]
 SHARD = None     # (work queue of decision prefixes, shared count of outstanding prefixes) when a harness is explored by several processes
 
 
@@ -54,13 +55,18 @@ def _enumerate_shared(run, max_paths):
     """the same depth-first enumeration with the stack of pending decision prefixes shared between forked workers:
     every prefix is explored by exactly one worker; the exploration ends when no prefix is pending anywhere"""
     import queue as _q
-    q, outstanding = SHARD
+    queues, counters = SHARD
+    r = _ROUND[0]                # the r-th run_function call of this task: every worker makes the same calls in the same order
+    _ROUND[0] += 1
+    if r >= len(queues):
+        raise O.OutsideSubset("a sharded task makes more run_function calls than rounds were provisioned")
+    q = queues[r]
     n = 0
     while True:
         try:
             prefix = q.get(timeout=0.1)
         except _q.Empty:
-            if outstanding.value == 0:
+            if counters[r] == 0:
                 break
             continue
         o = Oracle(prefix)
@@ -75,11 +81,11 @@ def _enumerate_shared(run, max_paths):
                 for alt in range(1, k):
                     children.append([c for c, _, _ in o.trail[:i]] + [alt])
         except BaseException:
-            with outstanding.get_lock():
-                outstanding.value -= 1
+            with counters.get_lock():
+                counters[r] -= 1
             raise
-        with outstanding.get_lock():
-            outstanding.value += len(children) - 1
+        with counters.get_lock():
+            counters[r] += len(children) - 1
         for c in children:
             q.put(c)
     return n
